@@ -9,9 +9,9 @@ import sys
 VERIF = os.path.dirname(os.path.dirname(os.path.abspath(__file__)))
 WT = "/tmp/bx/repo"
 OUT = "/tmp/bx/out"
-AREA = {"B_vm": ["C05", "C06", "C17", "C19", "C20", "C03", "C18", "C01"], "B_gen": ["C01", "C03", "C07", "C08", "C16", "C02", "C05", "C18"],
-        "B_macro": ["C09", "C10", "C11", "C12", "C01", "C02", "X01"], "B_parse": ["C04", "C02", "C16", "C01", "C07"],
-        "B_scan": ["C14", "C15", "C02", "C01"], "B_lr": ["C13", "C12", "C09", "C11"]}
+AREA = {"B_vm": ["C05", "C06", "C17", "C19", "C18"], "B_gen": ["C01", "C03", "C07", "C08", "C16"],
+        "B_macro": ["C09", "C10", "C11", "C12", "C02"], "B_parse": ["C04", "C02", "C16", "C01"],
+        "B_scan": ["C14", "C15", "C02"], "B_lr": ["C13", "C12", "C09"]}
 
 
 def sh(*a, **k):
@@ -22,12 +22,19 @@ def main():
     os.makedirs("/tmp/bx", exist_ok=True)
     if not os.path.exists(WT):
         sh("git", "-C", "/repo", "worktree", "add", "--detach", WT, "HEAD")
+    sh("git", "-C", WT, "checkout", "--detach", sh("git", "-C", "/repo", "rev-parse", "HEAD").stdout.strip())
     sh("git", "-C", WT, "checkout", "--", ".")
     names = sys.argv[1:] or sorted(os.listdir(os.path.join(VERIF, "benign")))
     env = dict(os.environ, THEO_REPO=WT, VERIF_SCRATCH=OUT, VERIF_TIER="quick")
     for n in names:
         d = os.path.join(VERIF, "benign", n)
         if not os.path.exists(os.path.join(d, "patch.diff")):
+            continue
+        old = {}
+        if os.path.exists(os.path.join(d, "result.json")):
+            old = json.load(open(os.path.join(d, "result.json")))
+        if old.get("obsolete"):
+            print(n, "obsolete, skipped")
             continue
         r = sh("git", "-C", WT, "apply", os.path.join(d, "patch.diff"))
         if r.returncode != 0:
@@ -40,8 +47,12 @@ def main():
             results[c] = {"exit": p.returncode, "first": first[:400]}
             print(n, c, "exit", p.returncode, first[:300], flush=True)
         sh("git", "-C", WT, "checkout", "--", ".")
-        json.dump({"change": n, "quick_check_results_with_change_applied": results,
-                   "false_alarms": sorted(c for c, v in results.items() if v["exit"] != 0)}, open(os.path.join(d, "result.json"), "w"), indent=1)
+        new = {"change": n, "quick_check_results_with_change_applied": results,
+               "false_alarms": sorted(c for c, v in results.items() if v["exit"] != 0)}
+        for k in ("rebased",):
+            if k in old:
+                new[k] = old[k]
+        json.dump(new, open(os.path.join(d, "result.json"), "w"), indent=1)
 
 
 main()
